@@ -65,6 +65,10 @@ pub enum Op {
     /// a client whose handler occupies its worker thread (blocking section) for `ms` ms
     HoldBusy { l: u16, ms: u16 },
     Stop { graceful: bool, twice: bool, drop_future: bool },
+    /// `n` connections one after the other, each finished as soon as it has been greeted, while
+    /// another thread keeps sending (no-op) `resume()` commands: worker releases and commands race
+    /// in the accept thread's waker queue; every connection must be served
+    Churn { n: u16 },
     /// every service stops reporting readiness (connections dispatched from now on stay queued at
     /// their workers)
     GateClose,
@@ -936,6 +940,77 @@ fn run_once_inner(c: &Case, prop: Prop) -> Result<Obs, (Fail, bool)> {
                     r.w.panic_next.store(false, Ordering::SeqCst);
                 }
             }
+            Op::Churn { n } => {
+                r.refresh();
+                if r.paused || r.stopped || r.busy_until.is_some() || r.waiting() > 0 || r.held() >= r.workers * r.limit || r.w.gate_closed.load(Ordering::SeqCst) {
+                    continue;
+                }
+                let Some(a) = r.addrs[0].tcp() else { continue };
+                let n = 500 + (n as usize % 2500);
+                let stop = Arc::new(AtomicBool::new(false));
+                let chatter = {
+                    let stop = stop.clone();
+                    let h = r.handle2.clone();
+                    thread::spawn(move || {
+                        while !stop.load(Ordering::SeqCst) {
+                            block_on(h.resume());
+                        }
+                    })
+                };
+                let mut stalled = None;
+                for i in 0..n {
+                    let Ok(mut s) = std::net::TcpStream::connect_timeout(&a, BOUND) else { continue };
+                    let _ = socket2::SockRef::from(&s).set_linger(Some(Duration::ZERO));
+                    let id = 0x2000_0000 + next_id;
+                    next_id += 1;
+                    let _ = s.write_all(&id.to_le_bytes());
+                    let _ = s.set_read_timeout(Some(BOUND));
+                    let mut b = [0u8; 1];
+                    if s.read_exact(&mut b).is_err() {
+                        stalled = Some(i);
+                        if std::env::var("VERIF_VERBOSE").is_ok() {
+                            eprintln!("[l4] churn stall at #{i}: call_count {} calls {} gauge {:?}", r.w.call_count.load(Ordering::SeqCst), r.w.calls.lock().unwrap().len(), r.w.gauge.lock().unwrap());
+                            eprintln!("[l4] open fds: {}", std::fs::read_dir("/proc/self/fd").map(|d| d.count()).unwrap_or(0));
+                            if let Ok(o) = std::process::Command::new("ss").args(["-tan"]).output() {
+                                let text = String::from_utf8_lossy(&o.stdout).to_string();
+                                let mine: Vec<&str> = text.lines().filter(|l| l.contains(&format!(":{}", a.port()))).collect();
+                                eprintln!("[l4] ss lines with port {}: {}", a.port(), mine.len());
+                                for l in mine.iter().take(6) {
+                                    eprintln!("[l4] ss: {l}");
+                                }
+                            }
+                            if let Ok(o) = std::process::Command::new("true").args(["-ltn"]).output() {
+                                for l in String::from_utf8_lossy(&o.stdout).lines().filter(|l| l.contains(&format!(":{} ", a.port()))) {
+                                    eprintln!("[l4] ss: {l}");
+                                }
+                            }
+                            let _ = s.set_read_timeout(Some(Duration::from_secs(10)));
+                            let later = s.read_exact(&mut b).is_ok();
+                            eprintln!("[l4] ... after 10 more seconds (chatter still running): served={later} call_count {}", r.w.call_count.load(Ordering::SeqCst));
+                            stop.store(true, Ordering::SeqCst);
+                            thread::sleep(Duration::from_millis(200));
+                            let _ = s.set_read_timeout(Some(Duration::from_secs(3)));
+                            let later = s.read_exact(&mut b).is_ok();
+                            eprintln!("[l4] ... chatter stopped, 3 more seconds: served={later}");
+                            if let Ok(mut s2) = std::net::TcpStream::connect_timeout(&a, BOUND) {
+                                let _ = s2.write_all(&0x2fff_ffffu32.to_le_bytes());
+                                let _ = s2.set_read_timeout(Some(Duration::from_secs(3)));
+                                eprintln!("[l4] ... another connection: served={} ; first one now served={}", s2.read_exact(&mut b).is_ok(), s.read_exact(&mut b).is_ok());
+                            }
+                        }
+                        break;
+                    }
+                }
+                stop.store(true, Ordering::SeqCst);
+                let _ = chatter.join();
+                r.label("churn-with-command-chatter");
+                if let Some(i) = stalled {
+                    let msg = format!("connection #{} of a run of {} (each closed by the client as soon as it was greeted; {} of {} slots held by others; a second thread sending resume() commands) was not served within {:?}", i, n, r.held(), r.workers * r.limit, BOUND);
+                    r.flag(Prop::C03, "C03/not-served", msg.clone(), true);
+                    r.flag(Prop::C04, "C04/below-limit-skipped-e2e", msg.clone(), true);
+                    r.flag(Prop::C01, "C01/never-served", msg, true);
+                }
+            }
             Op::GateClose => {
                 if r.paused || r.stopped {
                     continue;
@@ -1428,8 +1503,8 @@ fn run_once_inner(c: &Case, prop: Prop) -> Result<Obs, (Fail, bool)> {
     obs.nontrivial = match prop {
         Prop::C01 => r.labels.contains(&"served-by>=2-workers") || nl >= 2,
         Prop::C02 => r.labels.contains(&"saturated-with-waiting"),
-        Prop::C03 => r.labels.contains(&"release-while-saturated"),
-        Prop::C04 => r.labels.contains(&"round-robin-window-checked"),
+        Prop::C03 => r.labels.contains(&"release-while-saturated") || r.labels.contains(&"churn-with-command-chatter"),
+        Prop::C04 => r.labels.contains(&"round-robin-window-checked") || r.labels.contains(&"churn-with-command-chatter"),
         Prop::C05 => r.labels.contains(&"pause") || r.labels.contains(&"inject"),
         Prop::C06 => stop_checked && r.labels.contains(&"stop-with-held-connections"),
         Prop::C08 => r.panics > 0,
@@ -1456,6 +1531,23 @@ pub mod gen {
                 }
                 Case { workers, limit: 12, listeners, shutdown_timeout_s: 1, ops, bind_mode, slow_drop: false, setters: (bind_mode as usize + workers) as u8, block_after_stop: false }
             })
+    }
+
+    /// C03 / C04: runs of short connections on one or two workers with a small limit while a second
+    /// thread sends commands (worker releases race with commands in the waker queue)
+    pub fn churn_strategy() -> impl Strategy<Value = Case> {
+        (1usize..3, 1usize..3, 0u8..3, any::<bool>(), any::<u16>(), any::<u16>()).prop_map(|(workers, limit, bind_mode, hold_one, n, n2)| {
+            let mut ops: Vec<Op> = vec![];
+            if hold_one && workers * limit > 1 {
+                ops.push(Op::Connect { l: 0 });
+                ops.push(Op::Settle);
+            }
+            ops.push(Op::Churn { n });
+            ops.push(Op::Connect { l: 0 });
+            ops.push(Op::Settle);
+            ops.push(Op::Churn { n: n2 });
+            Case { workers, limit, listeners: vec![LKind::Tcp], shutdown_timeout_s: 1, ops, bind_mode, slow_drop: false, setters: (workers + limit) as u8, block_after_stop: false }
+        })
     }
 
     /// C08: many workers, all of them dead before the accept thread notices the first fault
@@ -1506,6 +1598,8 @@ pub mod gen {
         pub abort: u32,
         /// weight of "the services stop reporting readiness for a while"
         pub gate: u32,
+        /// weight of "hundreds of short connections while a thread sends commands"
+        pub churn: u32,
     }
 
     pub fn strategy(p: P) -> impl Strategy<Value = Case> {
@@ -1551,6 +1645,10 @@ pub mod gen {
         if p.panic > 0 {
             alts.push((p.panic, Just(vec![Op::PanicNext, Op::Settle]).boxed()));
             alts.push((p.panic, (sel(), sel()).prop_map(|(l, l2)| vec![Op::PanicNext, Op::Connect { l }, Op::Connect { l: l2 }, Op::Settle]).boxed()));
+        }
+        if p.churn > 0 {
+            alts.push((p.churn, any::<u16>().prop_map(|n| vec![Op::Churn { n }]).boxed()));
+            alts.push((p.churn, (sel(), any::<u16>()).prop_map(|(l, n)| vec![Op::Connect { l }, Op::Settle, Op::Churn { n }]).boxed()));
         }
         if p.gate > 0 {
             alts.push((p.gate, (prop::collection::vec(sel(), 1..5)).prop_map(|ls| {
